@@ -1,8 +1,625 @@
 import QP.Base
+/-!
+# C06 — model of the hardware-preparation rewrites of `qupulse.program.loop.Loop`
+
+The model mirrors the code that exists (`loop.py`, `utils/tree.py`, `utils/numeric.py`):
+
+* a program is a tree `Loop.mk rep vol meas wf children`; a node is a *leaf* iff it has no children
+  (`Node.is_leaf`); `vol` = "the repetition count is a `VolatileRepetitionCount`", `meas` = "the node
+  carries a non-empty measurement list" — both only matter because the code branches on them;
+* a leaf waveform is abstract: the list of *atoms* `(id, duration, constant?)` it plays.  An
+  unmerged leaf has one atom; `to_waveform` (used by `make_compatible`) produces the concatenation
+  of the atoms it merges, so the played sequence stays comparable.  For a constant atom `id` names
+  its value dictionary (two constant atoms with the same `id` play the same voltages);
+* Python mutation through `self` becomes "return the new tree"; a raised exception becomes
+  `.error <class>` and means "raised before anything was modified";
+* the `while` loop of `flatten_and_balance` is `flattenLoop` with a fuel argument and a zipper
+  `(done, rest)` for `(i, children)`: "do not advance `i`" = the element stays at the head of `rest`;
+* child positions (`Node.__parent_index`) are assumed to be the real positions (this is the
+  repaired behaviour of `Node._reverse_children`, PF-05; coherence under edit histories is C09);
+* `rollConstant` has a flag `strict`: `true` is the repaired behaviour (PF-06: a waveform whose
+  sample count is not a multiple of the quantum is left alone), `false` the pinned behaviour.
+
+Tree-shape precondition `Valid` (the docstring of `Loop`): every repetition count is `≥ 1`, a leaf
+carries a waveform, an inner node carries none.  Only `toWaveform` / `makeCompatible` need it (for an
+invalid tree Python raises inside `to_waveform`, at a point this model does not represent); the
+driver answers `(precondition)` there.
+-/
 namespace QP.C06
+
+inductive Err where
+  | runtimeError     -- `unroll` on a leaf, `split_one_child` without a candidate
+  | valueError       -- `split_one_child(i)` with count < 2; `make_compatible` on an incompatible program
+  | assertion        -- violated `assert` (`_merge_single_child`, `smallest_factor_ge`)
+  | indexError       -- child index out of range
+  | zeroDivision     -- `% 0` / `// 0`
+  | fuel             -- the model ran out of fuel (the Python loop would still be running)
+  deriving Repr, DecidableEq
+
+structure Atom where
+  id : Nat
+  dur : Rat
+  const : Bool
+  deriving DecidableEq, Repr
+
+/-- a (possibly merged) waveform: the atoms it plays, in order -/
+abbrev Wf := List Atom
+
+def sumDur : List Atom → Rat
+  | [] => 0
+  | a :: as => a.dur + sumDur as
+
+/-- `constant_value_dict()` of a merged waveform: `some id` iff it is non-empty and every atom is
+constant with the same value dictionary (`SequenceWaveform.from_sequence` /
+`RepetitionWaveform.from_repetition_count` collapse exactly then) -/
+def constId : Wf → Option Nat
+  | [] => none
+  | a :: as => if a.const && as.all (fun b => b.const && b.id == a.id) then some a.id else none
+
+inductive Loop where
+  | mk (rep : Nat) (vol : Bool) (meas : Bool) (wf : Option Wf) (children : List Loop)
+  deriving Repr
+
+namespace Loop
+def rep : Loop → Nat | mk r _ _ _ _ => r
+def vol : Loop → Bool | mk _ v _ _ _ => v
+def meas : Loop → Bool | mk _ _ m _ _ => m
+def wf : Loop → Option Wf | mk _ _ _ w _ => w
+def children : Loop → List Loop | mk _ _ _ _ cs => cs
+def isLeaf : Loop → Bool | mk _ _ _ _ cs => cs.isEmpty
+end Loop
+
+/-- `xs` repeated `n` times -/
+def repeatL {α : Type} : Nat → List α → List α
+  | 0, _ => []
+  | n + 1, xs => xs ++ repeatL n xs
+
+/-! ## Observables: played sequence, duration, depth, balance -/
+
+mutual
+/-- the fully unrolled sequence of atoms the program plays -/
+def play : Loop → List Atom
+  | .mk r _ _ w cs => repeatL r (if cs.isEmpty then w.getD [] else playL cs)
+def playL : List Loop → List Atom
+  | [] => []
+  | c :: cs => play c ++ playL cs
+end
+
+mutual
+/-- `Loop.duration` = `body_duration * repetition_count` -/
+def duration : Loop → Rat
+  | .mk r _ _ w cs => (if cs.isEmpty then sumDur (w.getD []) else durationL cs) * (r : Rat)
+def durationL : List Loop → Rat
+  | [] => 0
+  | c :: cs => duration c + durationL cs
+end
+
+def bodyDuration : Loop → Rat
+  | .mk _ _ _ w cs => if cs.isEmpty then sumDur (w.getD []) else durationL cs
+
+mutual
+/-- `Node.depth` -/
+def depth : Loop → Nat
+  | .mk _ _ _ _ cs => if cs.isEmpty then 0 else 1 + maxDepthL cs
+def maxDepthL : List Loop → Nat
+  | [] => 0
+  | c :: cs => max (depth c) (maxDepthL cs)
+end
+
+def headDepth : List Loop → Nat
+  | [] => 0
+  | c :: _ => depth c
+
+mutual
+/-- `Node.is_balanced` -/
+def isBalanced : Loop → Bool
+  | .mk _ _ _ _ cs => allBalL (headDepth cs) cs
+def allBalL (d : Nat) : List Loop → Bool
+  | [] => true
+  | c :: cs => (depth c == d && isBalanced c) && allBalL d cs
+end
+
+mutual
+/-- durations of the leaf waveforms, left to right (a leaf without waveform counts as 0) -/
+def leafDurs : Loop → List Rat
+  | .mk _ _ _ w cs => if cs.isEmpty then [sumDur (w.getD [])] else leafDursL cs
+def leafDursL : List Loop → List Rat
+  | [] => []
+  | c :: cs => leafDurs c ++ leafDursL cs
+end
+
+mutual
+/-- `Loop.duration` of every node in preorder -/
+def nodeDurs : Loop → List Rat
+  | .mk r v m w cs => duration (.mk r v m w cs) :: nodeDursL cs
+def nodeDursL : List Loop → List Rat
+  | [] => []
+  | c :: cs => nodeDurs c ++ nodeDursL cs
+end
+
+mutual
+def size : Loop → Nat
+  | .mk _ _ _ _ cs => 1 + sizeL cs
+def sizeL : List Loop → Nat
+  | [] => 0
+  | c :: cs => size c + sizeL cs
+end
+
+mutual
+/-- the docstring's validity: counts ≥ 1, leaves carry a waveform, inner nodes carry none -/
+def valid : Loop → Bool
+  | .mk r _ _ w cs => decide (1 ≤ r) && (if cs.isEmpty then w.isSome else w.isNone) && validL cs
+def validL : List Loop → Bool
+  | [] => true
+  | c :: cs => valid c && validL cs
+end
+
+mutual
+/-- half of `valid`: a node with children carries no waveform (such a waveform is never played, but
+it would become audible if a rewrite removed all children of the node) -/
+def noInnerWf : Loop → Bool
+  | .mk _ _ _ w cs => (cs.isEmpty || w.isNone) && noInnerWfL cs
+def noInnerWfL : List Loop → Bool
+  | [] => true
+  | c :: cs => noInnerWf c && noInnerWfL cs
+end
+
+/-! ### Equality of played sequences up to splitting constant pieces
+
+`rollConstant` replaces one constant atom by several shorter ones with the same values.  Two atom
+sequences describe the same voltages iff they agree after merging adjacent constant atoms with
+the same value dictionary: `norm`. -/
+
+def push (s : Atom) : List Atom → List Atom
+  | [] => [s]
+  | t :: ts => if s.const && t.const && s.id == t.id then ⟨t.id, s.dur + t.dur, true⟩ :: ts else s :: t :: ts
+
+def norm : List Atom → List Atom
+  | [] => []
+  | a :: as => push a (norm as)
+
+/-! ## The simple rewrites -/
+
+/-- `Loop.encapsulate` -/
+def encapsulate : Loop → Loop
+  | .mk r v m w cs => .mk 1 false false none [.mk r v m w cs]
+
+/-- `Loop.unroll_children`.  Repaired behaviour (PF-C06-1): a leaf is rejected like in `unroll`;
+the pinned code sets the repetition count of a leaf to 1 and thereby shortens the pulse
+(`unrollChildrenPinned`). -/
+def unrollChildren : Loop → Except Err Loop
+  | .mk r _ m w cs => if cs.isEmpty then .error .runtimeError else .ok (.mk 1 false m w (repeatL r cs))
+
+def unrollChildrenPinned : Loop → Loop
+  | .mk r _ m w cs => .mk 1 false m w (repeatL r cs)
+
+/-- what `Loop.unroll` puts in place of the node: `rep` copies of its children -/
+def unrolled : Loop → List Loop
+  | .mk r _ _ _ cs => repeatL r cs
+
+/-- `parent[i].unroll()` -/
+def unrollAt (p : Loop) (i : Nat) : Except Err Loop :=
+  match p with
+  | .mk r v m w cs =>
+    match cs[i]? with
+    | none => .error .indexError
+    | some c =>
+      if c.isLeaf then .error .runtimeError
+      else .ok (.mk r v m w (cs.take i ++ unrolled c ++ cs.drop (i + 1)))
+
+/-- `Loop._has_single_child_that_can_be_merged` -/
+def hasSingleMergeable : Loop → Bool
+  | .mk _ _ m _ [.mk cr cv _ _ _] => !m || (cr == 1 && !cv)
+  | _ => false
+
+/-- `Loop._merge_single_child` -/
+def mergeSingleChild : Loop → Except Err Loop
+  | .mk r v m w [.mk cr cv cm cw ccs] =>
+    if m && !(cr == 1 && !cv) then .error .assertion
+    else if w.isSome then .error .assertion
+    else .ok (.mk (r * cr) (v || cv) (m || cm) cw ccs)
+  | _ => .error .assertion
+
+/-- candidate of `split_one_child()` scanning from the end: the last non-volatile child with count > 1,
+else the last volatile one. `i` is the position of the head of the list. -/
+def findSplit : List Loop → Nat → Option Nat → Option Nat → Option Nat × Option Nat
+  | [], _, nv, v => (nv, v)
+  | c :: cs, i, nv, v =>
+    if c.rep > 1 then
+      if !c.vol then findSplit cs (i + 1) (some i) v else findSplit cs (i + 1) nv (some i)
+    else findSplit cs (i + 1) nv v
+
+def splitIndex (cs : List Loop) : Option Nat :=
+  match findSplit cs 0 none none with
+  | (some i, _) => some i
+  | (none, some i) => some i
+  | (none, none) => none
+
+def splitAt (cs : List Loop) (i : Nat) : Except Err (List Loop) :=
+  match cs[i]? with
+  | none => .error .indexError
+  | some (.mk cr _ cm cw ccs) =>
+    .ok (cs.take i ++ [.mk (cr - 1) false cm cw ccs, .mk 1 false cm cw ccs] ++ cs.drop (i + 1))
+
+/-- Python list index: negative values count from the end -/
+def pyIndex (len : Nat) (i : Int) : Option Nat :=
+  if 0 ≤ i then (if i.toNat < len then some i.toNat else none)
+  else (if (-i).toNat ≤ len then some (len - (-i).toNat) else none)
+
+/-- `Loop.split_one_child(child_index)`.  Repaired behaviour (PF-C06-2): a negative index is
+normalised first; the pinned code inserts the copy at `self[child_index+1:child_index+1]` with the
+negative index, i.e. for `-1` at the front, which changes the played order. -/
+def splitOneChild (p : Loop) (idx : Option Int) : Except Err Loop :=
+  match p with
+  | .mk r v m w cs =>
+    match idx with
+    | some i =>
+      match pyIndex cs.length i with
+      | none => .error .indexError
+      | some i =>
+        match cs[i]? with
+        | none => .error .indexError
+        | some c => if c.rep < 2 then .error .valueError else (splitAt cs i).map (.mk r v m w)
+    | none =>
+      match splitIndex cs with
+      | none => .error .runtimeError
+      | some i => (splitAt cs i).map (.mk r v m w)
+
+/-! ## `cleanup` -/
+
+mutual
+/-- `Loop.cleanup(actions)`; `re` = `'remove_empty_loops' in actions`, `ms` = `'merge_single_child' in actions` -/
+def cleanup (re ms : Bool) : Loop → Except Err Loop
+  | .mk r v m w cs =>
+    match cleanupL re ms cs with
+    | .error e => .error e
+    | .ok cs' =>
+      if ms && hasSingleMergeable (.mk r v m w cs') then mergeSingleChild (.mk r v m w cs')
+      else .ok (.mk r v m w cs')
+def cleanupL (re ms : Bool) : List Loop → Except Err (List Loop)
+  | [] => .ok []
+  | c :: cs =>
+    if re then
+      if c.isLeaf then
+        match cleanupL re ms cs with
+        | .error e => .error e
+        | .ok cs' => if c.wf.isNone then .ok cs' else .ok (c :: cs')
+      else
+        match cleanup re ms c with
+        | .error e => .error e
+        | .ok c' =>
+          match cleanupL re ms cs with
+          | .error e => .error e
+          | .ok cs' => if c'.wf.isSome || !c'.isLeaf then .ok (c' :: cs') else .ok cs'
+    else
+      match cleanup re ms c with
+      | .error e => .error e
+      | .ok c' =>
+        match cleanupL re ms cs with
+        | .error e => .error e
+        | .ok cs' => .ok (c' :: cs')
+end
+
+/-! ## `flatten_and_balance` -/
+
+/-- the `while i < len(self)` loop: `done` = children before `i`, `rest` = children from `i` on -/
+def flattenLoop : Nat → Int → List Loop → List Loop → Except Err (List Loop)
+  | _, _, done, [] => .ok done
+  | 0, _, _, _ :: _ => .error .fuel
+  | n + 1, d, done, c :: rest =>
+    if (depth c : Int) < d - 1 then
+      flattenLoop n d done (encapsulate c :: rest)
+    else if !isBalanced c then
+      match c with
+      | .mk r v m w cs =>
+        match flattenLoop n (d - 1) [] cs with
+        | .error e => .error e
+        | .ok cs' => flattenLoop n d done (.mk r v m w cs' :: rest)
+    else if (depth c : Int) = d - 1 then
+      flattenLoop n d (done ++ [c]) rest
+    else if hasSingleMergeable c then
+      match mergeSingleChild c with
+      | .error e => .error e
+      | .ok c' => flattenLoop n d done (c' :: rest)
+    else if !c.isLeaf then
+      flattenLoop n d done (unrolled c ++ rest)
+    else
+      flattenLoop n d (done ++ [c]) rest
+
+/-- `Loop.flatten_and_balance(depth)` -/
+def flatten (fuel : Nat) (d : Int) : Loop → Except Err Loop
+  | .mk r v m w cs =>
+    match flattenLoop fuel d [] cs with
+    | .error e => .error e
+    | .ok cs' => .ok (.mk r v m w cs')
+
+/-! ## `make_compatible` -/
+
+mutual
+/-- `to_waveform(program)` as the atoms of the resulting waveform -/
+def toWaveform : Loop → Wf
+  | .mk r _ _ w cs =>
+    if cs.isEmpty then (if r = 1 then w.getD [] else repeatL r (w.getD []))
+    else if r > 1 then repeatL r (toWaveformL cs) else toWaveformL cs
+def toWaveformL : List Loop → Wf
+  | [] => []
+  | c :: cs => toWaveform c ++ toWaveformL cs
+end
+
+inductive Level where
+  | compatible | actionRequired | tooShort | fraction | quantum
+  deriving Repr, DecidableEq
+
+def Level.isIncompatible : Level → Bool
+  | .tooShort | .fraction | .quantum => true
+  | _ => false
+
+mutual
+/-- `_is_compatible(program, min_len, quantum, sample_rate)` (for `quantum ≥ 1`) -/
+def isCompatible (minLen quantum : Nat) (rate : Rat) : Loop → Level
+  | .mk r v m w cs =>
+    let samples := duration (.mk r v m w cs) * rate
+    if samples.den ≠ 1 then .fraction
+    else if samples < (minLen : Rat) then .tooShort
+    else if Int.fmod samples.num (quantum : Int) > 0 then .quantum
+    else if cs.isEmpty then
+      let wfSamples := bodyDuration (.mk r v m w cs) * rate
+      if wfSamples < (minLen : Rat) ∨ (wfSamples / (quantum : Rat)).den ≠ 1 then .actionRequired
+      else .compatible
+    else if allCompatibleL minLen quantum rate cs then .compatible else .actionRequired
+def allCompatibleL (minLen quantum : Nat) (rate : Rat) : List Loop → Bool
+  | [] => true
+  | c :: cs => (isCompatible minLen quantum rate c == .compatible) && allCompatibleL minLen quantum rate cs
+end
+
+def anyIncompatibleL (minLen quantum : Nat) (rate : Rat) : List Loop → Bool
+  | [] => false
+  | c :: cs => (isCompatible minLen quantum rate c).isIncompatible || anyIncompatibleL minLen quantum rate cs
+
+mutual
+/-- `_make_compatible(program, min_len, quantum, sample_rate)` on a valid tree -/
+def makeCompatibleAux (minLen quantum : Nat) (rate : Rat) : Loop → Loop
+  | .mk r v m w cs =>
+    if cs.isEmpty then
+      .mk 1 false m (some (toWaveform (.mk r v m w cs))) []
+    else if anyIncompatibleL minLen quantum rate cs then
+      let single := duration (.mk r v m w cs) * rate / (r : Rat)
+      if (single / (quantum : Rat)).den = 1 ∧ (minLen : Rat) ≤ single then
+        .mk r v m (some (toWaveform (.mk 1 false m w cs))) []
+      else
+        .mk 1 false m (some (toWaveform (.mk r v m w cs))) []
+    else .mk r v m w (makeCompatibleAuxL minLen quantum rate cs)
+def makeCompatibleAuxL (minLen quantum : Nat) (rate : Rat) : List Loop → List Loop
+  | [] => []
+  | c :: cs =>
+    (if isCompatible minLen quantum rate c == .actionRequired then makeCompatibleAux minLen quantum rate c else c)
+      :: makeCompatibleAuxL minLen quantum rate cs
+end
+
+/-- `make_compatible(program, minimal_waveform_length, waveform_quantum, sample_rate)` on a valid tree.
+With `quantum = 0` Python's `%` raises unless one of the two earlier tests already returned. -/
+def makeCompatible (minLen quantum : Nat) (rate : Rat) (t : Loop) : Except Err Loop :=
+  let samples := duration t * rate
+  if samples.den ≠ 1 then .error .valueError
+  else if samples < (minLen : Rat) then .error .valueError
+  else if quantum = 0 then .error .zeroDivision
+  else
+    match isCompatible minLen quantum rate t with
+    | .fraction | .tooShort | .quantum => .error .valueError
+    | .actionRequired => .ok (makeCompatibleAux minLen quantum rate t)
+    | .compatible => .ok t
+
+/-! ## `roll_constant_waveforms` and `smallest_factor_ge` -/
+
+/-- first element `f` of `start, start+1, …` (`count` candidates) with `n % f == 0` -/
+def firstFactor (n : Nat) : Nat → Nat → Option Nat
+  | _, 0 => none
+  | start, count + 1 => if n % start = 0 then some start else firstFactor n (start + 1) count
+
+/-- `smallest_factor_ge(n, min_factor, brute_force=5)`: probe `range(min_factor, min(min_factor+5, n))`,
+then the minimum of the divisors `≥ min_factor` -/
+def smallestFactorGe (n minFactor : Nat) : Except Err Nat :=
+  if n < minFactor then .error .assertion
+  else if n = 0 then .error .valueError                         -- `min()` of `divisors(0) = []`
+  else if minFactor = 0 then .error .zeroDivision               -- `n % 0`
+  else
+    match firstFactor n minFactor (min (minFactor + 5) n - minFactor) with
+    | some f => .ok f
+    | none =>
+      match firstFactor n minFactor (n + 1 - minFactor) with
+      | some f => .ok f
+      | none => .error .valueError       -- `min()` of an empty sequence
+
+mutual
+/-- `roll_constant_waveforms(program, minimal_waveform_quanta, waveform_quantum, sample_rate)`.
+`strict = true`: repaired (PF-06) — a waveform whose length is not a multiple of the quantum is kept. -/
+def rollConstant (strict : Bool) (minQ quantum : Nat) (rate : Rat) : Loop → Except Err Loop
+  | .mk r v _ w cs =>
+    match w with
+    | none =>
+      match rollConstantL strict minQ quantum rate cs with
+      | .error e => .error e
+      | .ok cs' => .ok (.mk r v false none cs')
+    | some wf =>
+      if quantum = 0 then .error .zeroDivision else
+      let samples := sumDur wf * rate
+      let wq : Int := (samples / (quantum : Rat)).floor
+      if wq < 2 * (minQ : Int) then .ok (.mk r v false w cs) else
+      match constId wf with
+      | none => .ok (.mk r v false w cs)
+      | some cid =>
+        if strict && (samples / (quantum : Rat)).den ≠ 1 then .ok (.mk r v false w cs) else
+        match smallestFactorGe wq.toNat minQ with
+        | .error e => .error e
+        | .ok nq =>
+          if (nq : Int) = wq then .ok (.mk r v false w cs)
+          else
+            let add := wq.toNat / nq
+            .ok (.mk (r * add) v false (some [⟨cid, (quantum : Rat) * (nq : Rat) / rate, true⟩]) cs)
+def rollConstantL (strict : Bool) (minQ quantum : Nat) (rate : Rat) : List Loop → Except Err (List Loop)
+  | [] => .ok []
+  | c :: cs =>
+    match rollConstant strict minQ quantum rate c with
+    | .error e => .error e
+    | .ok c' =>
+      match rollConstantL strict minQ quantum rate cs with
+      | .error e => .error e
+      | .ok cs' => .ok (c' :: cs')
+end
+
+/-! ## Specification (the judge)
+
+`SamePulse a b`: `b` plays the same voltages as `a` (same atoms up to splitting/merging equal
+constants) and has the same total duration. -/
+
+def SamePulse (a b : Loop) : Prop := norm (play b) = norm (play a) ∧ duration b = duration a
+
+def samePulseB (a b : Loop) : Bool := decide (norm (play b) = norm (play a)) && decide (duration b = duration a)
+
+/-- requested depth and balance: every child of the root is balanced and has depth `max (d-1) 0` -/
+def FlattenPost (d : Int) (t : Loop) : Prop :=
+  ∀ c ∈ t.children, isBalanced c = true ∧ (depth c : Int) = max (d - 1) 0
+
+def flattenPostB (d : Int) (t : Loop) : Bool :=
+  t.children.all (fun c => isBalanced c && decide ((depth c : Int) = max (d - 1) 0))
+
+/-- every played waveform is long enough and a multiple of the granularity -/
+def CompatPost (minLen quantum : Nat) (rate : Rat) (t : Loop) : Prop :=
+  ∀ x ∈ leafDurs t, (minLen : Rat) ≤ x * rate ∧ (x * rate / (quantum : Rat)).den = 1
+
+def compatPostB (minLen quantum : Nat) (rate : Rat) (t : Loop) : Bool :=
+  (leafDurs t).all (fun x => decide ((minLen : Rat) ≤ x * rate) && decide ((x * rate / (quantum : Rat)).den = 1))
+
+/-! ## Line protocol -/
 open Sexp
 
+def errS : Err → Sexp
+  | .runtimeError => .list [.atom "error", .atom "runtime_error"]
+  | .valueError => .list [.atom "error", .atom "value_error"]
+  | .assertion => .list [.atom "error", .atom "assertion"]
+  | .indexError => .list [.atom "error", .atom "index_error"]
+  | .zeroDivision => .list [.atom "error", .atom "zero_division"]
+  | .fuel => .list [.atom "error", .atom "fuel"]
+
+def atomS (a : Atom) : Sexp := .list [ofNat a.id, ofRat a.dur, ofBool a.const]
+
+def atom? : Sexp → Option Atom
+  | .list [i, d, c] => do
+    let i ← nat? i; let d ← rat? d; let c ← bool? c
+    some ⟨i, d, c⟩
+  | _ => none
+
+def wfS : Option Wf → Sexp
+  | none => .atom "-"
+  | some w => .list (w.map atomS)
+
+def wf? : Sexp → Option (Option Wf)
+  | .atom "-" => some none
+  | .list xs => (xs.mapM atom?).map some
+  | _ => none
+
+partial def loopS : Loop → Sexp
+  | .mk r v m w cs => .list [.atom "L", ofNat r, ofBool v, ofBool m, wfS w, .list (cs.map loopS)]
+
+partial def loop? : Sexp → Option Loop
+  | .list [.atom "L", r, v, m, w, .list cs] => do
+    let r ← nat? r; let v ← bool? v; let m ← bool? m; let w ← wf? w
+    let cs ← cs.mapM loop?
+    some (.mk r v m w cs)
+  | _ => none
+
+def obsS (t : Loop) : Sexp :=
+  .list [.atom "obs",
+    .list [.atom "dur", ofRat (duration t)],
+    .list [.atom "depth", ofNat (depth t)],
+    .list [.atom "bal", ofBool (isBalanced t)],
+    .list (.atom "leaves" :: (leafDurs t).map ofRat),
+    .list (.atom "play" :: (norm (play t)).map atomS)]
+
+/-- fuel handed to `flatten` by the driver (see `QP.Props.C06.flatten_terminates`) -/
+def driverFuel : Nat := 4000000
+
+inductive Op where
+  | encapsulate | unrollChildren | unroll (i : Nat) | merge | split (i : Option Int)
+  | cleanup (re ms : Bool) | flatten (d : Int) | compat (minLen q : Nat) (rate : Rat)
+  | roll (minQ q : Nat) (rate : Rat) | rollPinned (minQ q : Nat) (rate : Rat)
+
+def op? : Sexp → Option Op
+  | .list [.atom "encapsulate"] => some .encapsulate
+  | .list [.atom "unroll-children"] => some .unrollChildren
+  | .list [.atom "unroll", i] => (nat? i).map .unroll
+  | .list [.atom "merge"] => some .merge
+  | .list [.atom "split", .atom "none"] => some (.split none)
+  | .list [.atom "split", i] => (int? i).map (fun i => .split (some i))
+  | .list [.atom "cleanup", re, ms] => do some (.cleanup (← bool? re) (← bool? ms))
+  | .list [.atom "flatten", d] => (int? d).map .flatten
+  | .list [.atom "compat", a, b, c] => do some (.compat (← nat? a) (← nat? b) (← rat? c))
+  | .list [.atom "roll", a, b, c] => do some (.roll (← nat? a) (← nat? b) (← rat? c))
+  | .list [.atom "roll-pinned", a, b, c] => do some (.rollPinned (← nat? a) (← nat? b) (← rat? c))
+  | _ => none
+
+/-- `none`: the input is outside the modelled domain (tree-shape precondition of `make_compatible`) -/
+def runOp (op : Op) (t : Loop) : Option (Except Err Loop) :=
+  match op with
+  | .encapsulate => some (.ok (encapsulate t))
+  | .unrollChildren => some (unrollChildren t)
+  | .unroll i => some (unrollAt t i)
+  | .merge => some (mergeSingleChild t)
+  | .split i => some (splitOneChild t i)
+  | .cleanup re ms => some (cleanup re ms t)
+  | .flatten d => some (flatten driverFuel d t)
+  | .compat a b c => if valid t then some (makeCompatible a b c t) else none
+  | .roll a b c => some (rollConstant true a b c t)
+  | .rollPinned a b c => some (rollConstant false a b c t)
+
+/-- the judge: does output tree `o` (as serialised from the implementation) with the reported
+duration / depth / balance satisfy the property for input `t` and rewrite `op`? -/
+def judgeOk (op : Op) (t o : Loop) (rdurs : List Rat) (rdepth : Nat) (rbal : Bool) : String :=
+  if ¬ (norm (play o) = norm (play t)) then "played-sequence-changed"
+  else if ¬ (duration o = duration t) then "duration-changed"
+  else if ¬ (rdurs.head? = some (duration t)) then "reported-duration-changed"
+  else if ¬ (rdurs = nodeDurs o) then "reported-duration-of-a-subprogram-inconsistent"
+  else if ¬ (rdepth = depth o ∧ rbal = isBalanced o) then "reported-depth-or-balance-inconsistent"
+  else match op with
+    | .flatten d => if flattenPostB d o then "ok" else "depth-or-balance-postcondition"
+    | .compat a b c => if compatPostB a b c o then "ok" else "length-or-granularity-postcondition"
+    | _ => "ok"
+
+def judgeErr (t o : Loop) (rdurs : List Rat) : String :=
+  if ¬ (norm (play o) = norm (play t)) then "played-sequence-changed-by-failed-rewrite"
+  else if ¬ (duration o = duration t ∧ rdurs.head? = some (duration t)) then "duration-changed-by-failed-rewrite"
+  else if ¬ (rdurs = nodeDurs o) then "reported-duration-of-a-subprogram-inconsistent"
+  else "ok"
+
 def handle : List Sexp → Sexp
-  | _ => Sexp.err "c06-not-implemented"
+  | [.atom "obs", t] =>
+    match loop? t with
+    | some t => obsS t
+    | none => Sexp.err "bad-tree"
+  | [.atom "run", op, t] =>
+    match op? op, loop? t with
+    | some op, some t =>
+      match runOp op t with
+      | none => .list [.atom "precondition"]
+      | some (.error e) => errS e
+      | some (.ok t') => .list [.atom "ok", loopS t', obsS t']
+    | _, _ => Sexp.err "bad-args"
+  | [.atom "judge", op, t, .list [.atom "ok", o, rdurs, rdepth, rbal]] =>
+    match op? op, loop? t, loop? o, listOf? rat? rdurs, nat? rdepth, bool? rbal with
+    | some op, some t, some o, some rdurs, some rdepth, some rbal =>
+      .list [.atom "judge", .atom (judgeOk op t o rdurs rdepth rbal)]
+    | _, _, _, _, _, _ => Sexp.err "bad-args"
+  | [.atom "judge", _, t, .list [.atom "error", o, rdurs]] =>
+    match loop? t, loop? o, listOf? rat? rdurs with
+    | some t, some o, some rdurs => .list [.atom "judge", .atom (judgeErr t o rdurs)]
+    | _, _, _ => Sexp.err "bad-args"
+  | [.atom "sfg", n, m] =>
+    match nat? n, nat? m with
+    | some n, some m =>
+      match smallestFactorGe n m with
+      | .ok f => .list [.atom "ok", ofNat f]
+      | .error e => errS e
+    | _, _ => Sexp.err "bad-args"
+  | _ => Sexp.err "c06-unknown-request"
 
 end QP.C06
